@@ -6,7 +6,7 @@ V = '/verif'
 needs = json.load(open(f'{V}/tools/seed_needs.json'))
 head = subprocess.check_output(['git', '-C', '/repo', 'log', '-1', '--format=%h']).decode().strip()
 rows = []
-WAVE = {'w1': ({'A': 'A', 'B': 'B'}, '/tmp/seedout', 1), 'w2': ({'A': 'C', 'B': 'D'}, '/tmp/seedout2', 2), 'w3': ({'A': 'E', 'B': 'F'}, '/tmp/seedout3', 3)}
+WAVE = {'w1': ({'A': 'A', 'B': 'B'}, '/tmp/seedout', 1), 'w2': ({'A': 'C', 'B': 'D'}, '/tmp/seedout2', 2), 'w3': ({'A': 'E', 'B': 'F'}, '/tmp/seedout3', 3), 'w4': ({'A': 'G', 'B': 'H'}, '/tmp/seedout4', 4)}
 for d in sorted(glob.glob('/tmp/final/w?-C??-?')):
     tag, pid, v = os.path.basename(d).split('-')
     name = f'{pid}-{WAVE[tag][0][v]}'
@@ -19,7 +19,7 @@ for d in sorted(glob.glob('/tmp/final/w?-C??-?')):
     src_notes = f'{WAVE[tag][1]}/{pid}/NOTES.md'
     if os.path.exists(src_notes):
         shutil.copy(src_notes, f'{out}/NOTES.md')
-    log = open(f'{d}/eval.log').read()
+    log = open(f'{d}/eval.log', errors='replace').read()
     checks, cur = {}, None
     for l in log.splitlines():
         m = re.match(r'== (C\d+) exit=(\d+) \((\d+)s\)', l)
